@@ -123,9 +123,9 @@ package scan
 //@ func selectPoints
 //@   requires it != nil && mint <= maxt
 //@   requires buf_inv(it.bn, it.bT, it.bcur, it.blo, it.blastSeek, it.bdelta) && maxt >= it.blastSeek
-//@   requires[C03,C07] carried-points-are-the-previous-window: len(out) > 0 ==> winOK(out, it, it.wlo, it.whi) && it.wlo <= mint && it.whi < maxt
-//@   requires[C03,C07] buffer-covers-the-gap: maxt - it.bdelta <= ite(len(out) > 0 && out[len(out)-1].T >= mint, it.whi + 1, mint)
-//@   assigns ghost bcur@it, ghost blo@it, ghost blastSeek@it, ghost bfailed@it, ghost pidx@it, ghost wlo@it, ghost whi@it, elems(github.com/prometheus/prometheus/promql.Point)
+//@   requires[C03,C07] carried-points-are-the-previous-window: winOK(out, it, it.wlo, it.whi) && it.wlo <= mint && it.whi < maxt
+//@   requires[C03,C07] buffer-covers-the-gap: maxt - it.bdelta <= mint || maxt - it.bdelta <= it.whi + 1
+//@   assigns ghost bcur@it, ghost blo@it, ghost blastSeek@it, ghost bfailed@it, ghost pidx@it, ghost wlo@it, ghost whi@it, elems(github.com/prometheus/prometheus/promql.Point)@out
 //@   ghostvar m0 int = mint
 //@   at line "copy(out, out[drop:])" set it.pidx = shiftseq(it.pidx, drop)
 //@   at line "if t >= mint {" set it.pidx = store(it.pidx, len(out), buf.rcur)
@@ -133,6 +133,8 @@ package scan
 //@   at line "return out, nil" set it.wlo = m0
 //@   at line "return out, nil" set it.whi = maxt
 //@   ensures[C15] storage-error-surfaces: it.bfailed ==> result1 != nil
+//@   ensures result-reuses-the-carried-buffer-or-is-new: result1 == nil ==> ref(result0) == ref(out) || fresh(result0)
+//@   ensures iterator-stays-usable: result1 == nil ==> buf_inv(it.bn, it.bT, it.bcur, it.blo, it.blastSeek, it.bdelta) && it.blastSeek == maxt && it.bdelta == old(it.bdelta)
 //@   ensures[C03,C19] no-staleness-marker-in-window: result1 == nil ==> forall p in 0..len(result0) :: !isstale(result0[p].V)
 //@   ensures[C03] points-inside-window: result1 == nil ==> forall p in 0..len(result0) :: old(mint) <= result0[p].T && result0[p].T <= maxt
 //@   ensures[C03,C07] points-are-series-samples: result1 == nil ==> winSound(result0, it)
@@ -156,6 +158,7 @@ package scan
 //@   loop 1 invariant scan-state: buf != nil && buf.rnext >= it.blo && buf.rnext <= it.bcur && mint >= m0 && m0 == old(mint) && buf.rT == it.bT && buf.rV == it.bV && buf.rend == it.bcur &&
 //@       it.bcur <= it.bn && sorted_ts(it.bT, it.bn) && (forall j in 0..it.bcur :: it.bT[j] < maxt) && (it.bcur < it.bn ==> it.bT[it.bcur] >= maxt) &&
 //@       (forall j in 0..it.blo :: it.bT[j] < maxt - it.bdelta)
+//@   loop 1 invariant same-buffer-or-new: ref(out) == old(ref(out)) || fresh(out)
 //@   loop 1 invariant win-sound: winSound(out, it)
 //@   loop 1 invariant win-inc: winInc(out, it)
 //@   loop 1 invariant win-in: winIn(out, m0, maxt)
@@ -239,3 +242,86 @@ package scan
 //@   loop 2 invariant sought2-todo: vsSought(o, i+1, len(o.scanners), ts - o.offset)
 //@   loop 2 invariant sought2-this: o.scanners[i].samples.lastSeek <= seriesTs - o.offset &&
 //@       (currStep >= 1 ==> o.scanners[i].samples.lastSeek <= vectors[currStep-1].T - o.offset)
+
+// ---- matrix_selector.go: matrixSelector.Next (C03, C07, C18) --------------------------------------
+// Object invariant once the series are loaded (and while steps remain): every scanner owns its
+// iterator and its carried points; the carried points are exactly the window [wlo, whi] last
+// evaluated for it, that window is older than the next one, and the iterator's buffer reaches back
+// far enough for the next window: either over the whole range (first step) or back to the end of
+// the previous window (later steps, buffer delta = min(range, step)). msReady is that statement for
+// scanner i and the end M of its next window.
+//@ ghost *promstorage.BufferedSeriesIterator bowner int
+//@ ghost []promql.Point powner int
+//@ pred msStruct(o) = len(o.scanners) == len(o.series) && (forall i in 0..len(o.scanners) :: o.scanners[i].samples != nil && o.scanners[i].samples.bowner == i &&
+//@     o.scanners[i].signature < len(o.series) && allocated(o.scanners[i].previousPoints) &&
+//@     (!isnil(o.scanners[i].previousPoints) ==> o.scanners[i].previousPoints.powner == i) && (isnil(o.scanners[i].previousPoints) ==> len(o.scanners[i].previousPoints) == 0))
+//@ pred msBuf(o, i) = buf_inv(o.scanners[i].samples.bn, o.scanners[i].samples.bT, o.scanners[i].samples.bcur, o.scanners[i].samples.blo, o.scanners[i].samples.blastSeek, o.scanners[i].samples.bdelta)
+//@ pred msWin(o, i) = winOK(o.scanners[i].previousPoints, o.scanners[i].samples, o.scanners[i].samples.wlo, o.scanners[i].samples.whi)
+//@ pred msNext(o, i, M) = o.scanners[i].samples.wlo <= M - o.selectRange && o.scanners[i].samples.whi < M && o.scanners[i].samples.blastSeek <= M &&
+//@     (o.scanners[i].samples.bdelta >= o.selectRange || M - o.scanners[i].samples.bdelta <= o.scanners[i].samples.whi + 1) &&
+//@     o.scanners[i].samples.bdelta >= imin(o.selectRange, o.step)
+//@ pred msShape(o) = o != nil && o.vectorPool != nil && !isnil(o.call) && o.step >= 0 && o.numSteps >= 1 && (o.step == 0 ==> o.numSteps == 1 && o.currentStep >= o.maxt) && o.selectRange >= 0
+// Assumed of the range-function table (execution/function.Funcs): a sample that is not the
+// "no value" sentinel is stamped with the step time it was computed for.
+//@ extern field:execution/scan.matrixSelector.call(f) r
+//@   pure
+//@   ensures !(r.Point.T == function.InvalidSample.Point.T && feq(r.Point.V, function.InvalidSample.Point.V) && r.Point.H == function.InvalidSample.Point.H) ==> r.Point.T == f.StepTime
+//@ func (*matrixSelector).loadSeries
+//@   trusted series loading runs storage callbacks (Labels, Iterator), edits label copies and wraps each iterator; assumed to establish the object invariant
+//@   requires o != nil && ctx != nil
+//@   panics may
+//@   assigns scan.matrixSelector.scanners, scan.matrixSelector.series, scan.matrixSelector.once, model.VectorPool.stepSize
+//@   ensures result == nil ==> msStruct(o) && (forall i in 0..len(o.scanners) :: msBuf(o, i)) && (forall i in 0..len(o.scanners) :: msWin(o, i)) &&
+//@       (forall i in 0..len(o.scanners) :: msNext(o, i, o.currentStep - o.offset))
+//@ func (*matrixSelector).Next
+//@   requires ctx != nil && msShape(o)
+//@   requires series-loaded-once: o.once != 0 && o.currentStep <= o.maxt ==> msStruct(o) && (forall i in 0..len(o.scanners) :: msBuf(o, i)) &&
+//@       (forall i in 0..len(o.scanners) :: msWin(o, i)) && (forall i in 0..len(o.scanners) :: msNext(o, i, o.currentStep - o.offset))
+//@   panics may
+//@   ensures[C18] error-means-no-batch: result1 != nil ==> isnil(result0)
+//@   ensures[C07,C18] ended-iff-past-maxt: result1 == nil ==> (isnil(result0) <==> old(o.currentStep) > o.maxt)
+//@   ensures[C07,C18] batch-size: result1 == nil && !isnil(result0) ==> 1 <= len(result0) && len(result0) <= o.numSteps
+//@   ensures[C07,C18] batch-is-maximal: result1 == nil && !isnil(result0) ==>
+//@       len(result0) == o.numSteps || old(o.currentStep) + len(result0)*old(o.step) > o.maxt
+//@   ensures[C07,C18] cursor-advances: result1 == nil && !isnil(result0) ==>
+//@       o.currentStep == old(o.currentStep) + imax(old(o.step), 1) * o.numSteps
+//@   ensures[C18] ids-and-values-pair-up: result1 == nil && !isnil(result0) ==> forall k in 0..len(result0) :: len(result0[k].SampleIDs) == len(result0[k].Samples)
+//@   at scan.selectPoints assert[C03,C07] window-of-the-step: $it == o.scanners[i].samples && $maxt == ts + currStep*o.step - o.offset && $mint == $maxt - o.selectRange &&
+//@       sameslice($out, o.scanners[i].previousPoints)
+//@   at field:execution/scan.matrixSelector.call assert[C03] function-gets-the-window-of-its-step: sameslice($f.Points, rangePoints) && $f.StepTime == seriesTs &&
+//@       $f.SelectRange == o.selectRange && $f.Offset == o.offset
+//@   at line "o.scanners[i].previousPoints = rangePoints" set rangePoints.powner = i
+//@   loop 0 invariant grid0: msShape(o) && 0 <= currStep && currStep <= o.numSteps && len(vectors) == currStep && !isnil(vectors) && fresh(vectors) &&
+//@       stepTs == ts + currStep*o.step && ts <= o.maxt && ts == old(o.currentStep) && o.currentStep == old(o.currentStep) && o.step == old(o.step) && o.numSteps == old(o.numSteps) && o.maxt == old(o.maxt)
+//@   loop 0 invariant vectors0: forall k in 0..currStep :: vectors[k].T == ts + k*o.step && vectors[k].T <= o.maxt &&
+//@       len(vectors[k].SampleIDs) == len(vectors[k].Samples) && allocated(vectors[k].SampleIDs) && allocated(vectors[k].Samples)
+//@   loop 0 invariant loaded0: msStruct(o) && (forall i in 0..len(o.scanners) :: msBuf(o, i)) && (forall i in 0..len(o.scanners) :: msWin(o, i)) &&
+//@       (forall i in 0..len(o.scanners) :: msNext(o, i, ts - o.offset))
+//@   at line "o.currentStep += o.step * int64(o.numSteps)" assert steps-of-the-batch-times-step: o.step >= 1 ==> len(vectors)*o.step <= o.numSteps*o.step
+//@   ensures[C03,C07] invariant-kept-structure: result1 == nil && !isnil(result0) && o.currentStep <= o.maxt ==> msStruct(o)
+//@   ensures[C03,C07] invariant-kept-iterators: result1 == nil && !isnil(result0) && o.currentStep <= o.maxt ==> forall i in 0..len(o.scanners) :: msBuf(o, i)
+//@   ensures[C03,C07] invariant-kept-windows: result1 == nil && !isnil(result0) && o.currentStep <= o.maxt ==> forall i in 0..len(o.scanners) :: msWin(o, i)
+//@   ensures[C03,C07] invariant-kept-next-window: result1 == nil && !isnil(result0) && o.currentStep <= o.maxt ==> forall i in 0..len(o.scanners) :: msNext(o, i, o.currentStep - o.offset)
+//@   loop 1 invariant batch1: msShape(o) && msStruct(o) && 0 <= i && i <= len(o.scanners) && !isnil(vectors) && fresh(vectors) && len(vectors) >= 1 && len(vectors) <= o.numSteps &&
+//@       (len(vectors) == o.numSteps || vectors[len(vectors)-1].T + o.step > o.maxt) &&
+//@       ts == old(o.currentStep) && o.currentStep == old(o.currentStep) && o.step == old(o.step) && o.numSteps == old(o.numSteps) && o.maxt == old(o.maxt)
+//@   loop 1 invariant vectors1: forall k in 0..len(vectors) :: vectors[k].T == ts + k*o.step && vectors[k].T <= o.maxt &&
+//@       len(vectors[k].SampleIDs) == len(vectors[k].Samples) && allocated(vectors[k].SampleIDs) && allocated(vectors[k].Samples)
+//@   loop 1 invariant bufs1: forall j in 0..len(o.scanners) :: msBuf(o, j)
+//@   loop 1 invariant wins1: forall j in 0..len(o.scanners) :: msWin(o, j)
+//@   loop 1 invariant next-done1: o.step >= 1 ==> forall j in 0..i :: msNext(o, j, vectors[len(vectors)-1].T + o.step - o.offset)
+//@   loop 1 invariant next-todo1: forall j in i..len(o.scanners) :: msNext(o, j, ts - o.offset)
+//@   loop 2 invariant batch2: msShape(o) && msStruct(o) && 0 <= i && i < len(o.scanners) && !isnil(vectors) && fresh(vectors) && len(vectors) >= 1 && len(vectors) <= o.numSteps &&
+//@       (len(vectors) == o.numSteps || vectors[len(vectors)-1].T + o.step > o.maxt) &&
+//@       ts == old(o.currentStep) && o.currentStep == old(o.currentStep) && o.step == old(o.step) && o.numSteps == old(o.numSteps) && o.maxt == old(o.maxt) &&
+//@       0 <= currStep && currStep <= len(vectors) && seriesTs == ts + currStep*o.step && series.samples == o.scanners[i].samples && series.signature == o.scanners[i].signature
+//@   loop 2 invariant vectors2: forall k in 0..len(vectors) :: vectors[k].T == ts + k*o.step && vectors[k].T <= o.maxt &&
+//@       len(vectors[k].SampleIDs) == len(vectors[k].Samples) && allocated(vectors[k].SampleIDs) && allocated(vectors[k].Samples)
+//@   loop 2 invariant bufs2: forall j in 0..len(o.scanners) :: msBuf(o, j)
+//@   loop 2 invariant wins2-before: forall j in 0..i :: msWin(o, j)
+//@   loop 2 invariant wins2-after: forall j in i+1..len(o.scanners) :: msWin(o, j)
+//@   loop 2 invariant wins2-this: msWin(o, i)
+//@   loop 2 invariant next-done2: o.step >= 1 ==> forall j in 0..i :: msNext(o, j, vectors[len(vectors)-1].T + o.step - o.offset)
+//@   loop 2 invariant next-todo2: forall j in i+1..len(o.scanners) :: msNext(o, j, ts - o.offset)
+//@   loop 2 invariant next-this2: currStep == 0 || o.step >= 1 ==> msNext(o, i, seriesTs - o.offset)
+//@   loop 2 invariant step-time-follows-the-previous-vector: (currStep >= 1 ==> seriesTs == vectors[currStep-1].T + o.step) && (currStep < len(vectors) ==> seriesTs == vectors[currStep].T)
